@@ -142,6 +142,9 @@ class Exec:
                 return "consume-result", exp, got, {"C10"}
         return None
 
+    def props_for_unexpected(self, obs):
+        return {"C10"}
+
     async def finish(self):
         for w in self.workers.values():
             w["scope"].cancel()
